@@ -4,7 +4,7 @@
 From Coq Require Import ZArith List Bool.
 From RecordUpdate Require Import RecordSet.
 Import RecordSetNotations.
-From VD Require Import Base.Bytes Model.Engine Model.Rfb Proofs.DecodeP Gen.Exprs Proofs.HextileP Proofs.ZrleP Proofs.ExprTie.
+From VD Require Import Base.Bytes Model.Engine Model.Rfb Proofs.DecodeP Gen.ExprsTiles Proofs.HextileP Proofs.ZrleP Proofs.TieTiles.
 Import ListNotations.
 Open Scope Z_scope.
 
@@ -248,7 +248,7 @@ Proof. exact qemu_key_roundtrip. Qed.
 Print Assumptions C02_qemu_key_marker_roundtrip.
 
 (** The tile geometry of Hextile and ZRLE used in the theorems above (tile size, next tile, end of the rectangle) and the
-    sub-rectangle geometry of Hextile are the source's own expressions: [Gen/Exprs.v] is regenerated from rfb.py on every run
+    sub-rectangle geometry of Hextile are the source's own expressions: [Gen/Exprs*.v] is regenerated from rfb.py on every run
     (gen/exprs.py) and these equalities are proved against whatever it says now - for all integers. *)
 Theorem C02_tile_geometry_is_source : forall x y w h tx ty,
   gen_hextile_tile_size x y w h tx ty = (tile_w x w tx, tile_h y h ty) /\
